@@ -169,7 +169,7 @@ impl ElectricDrivetrain {
     /// Set `pwr_in_req` required to achieve desired `pwr_out_req` with time step size `dt`.
     pub fn set_pwr_in_req(&mut self, pwr_out_req: si::Power, dt: si::Time) -> anyhow::Result<()> {
         ensure!(
-            pwr_out_req <= self.pwr_out_max,
+            pwr_out_req.abs() <= self.pwr_out_max,
             format!(
                 "{}\nedrv required power ({:.6} MW) exceeds static max power ({:.6} MW)",
                 format_dbg!(pwr_out_req.abs() <= self.pwr_out_max),
